@@ -235,6 +235,9 @@ def inherit(ctx, vb):
         base_a = bool(find_calls(a, 'region_name_and_vftable'))
         base_b = bool(find_calls(b, 'region_name_and_vftable'))
         okl = (op == 'Lt' and not base_a and base_b) or (op == 'Gt' and base_a and not base_b)
+        # the two lengths themselves are compared (no `+ 1`, no `saturating_sub`, no `min`)
+        from r_panic import is_len_of
+        okl = okl and is_len_of(expand(glen[0].fn, a)) is not None and is_len_of(expand(glen[0].fn, b)) is not None
     ctx.ob(['C06'], 'R-GUARD', 'G11|derived-not-shorter', okl, 'len(derived vftable) < len(base vftable) ⇒ Err: %s' % [show(g.pred)[:160] for g in glen], glen[0].where() if glen else where)
     gne = [g for g in gs if g.kind == 'reject' and g.pred[0] == 'call' and re.search(r'PartialEq.*::(ne|eq)$|cmp::impls::.*::(ne|eq)$|::ne$', g.pred[1] + g.pred[3])]
     gne += [g for g in gs if g.kind == 'reject' and g.pred[0] == 'un' and g.pred[2][0] == 'call' and re.search(r'::eq$', g.pred[2][1])]
@@ -316,6 +319,33 @@ def inherit(ctx, vb):
         a, b = call[2][0], call[2][1]
         sides = any(x[0] == 'payload' and x[2] == 'Some' for x in walk(a) if isinstance(x, tuple)) and any(x[0] == 'payload' for x in walk(b) if isinstance(x, tuple))
         okn = bool(okty and zipped and every and sides)
+        if not okn and okty and every and sty == 'std::ops::Range<usize>':
+            # `for i in 0..base.len() { if base[i] != derived[i] { bail } }`: one index for both sides, running over the whole base table
+            rng = None
+            for x in walk(expand(vb, src)):
+                if isinstance(x, tuple) and x and x[0] == 'agg' and re.search(r'ops::(range::)?Range$', x[1]) and len(x[2]) == 2:
+                    rng = dict(x[2])
+            def idx_parts(e):
+                e = strip(expand(vb, e))
+                while e[0] == 'call' and e[2] and re.search(r'(Deref>::deref|::borrow|::as_ref)$', e[1]):
+                    e = strip(e[2][0])
+                if e[0] == 'index':
+                    return strip(e[1]), strip(e[2])
+                if e[0] == 'call' and re.search(r'Index<.*>>::index$', e[1]) and len(e[2]) == 2:
+                    return strip(e[2][0]), strip(e[2][1])
+                return None, None
+            la, ia = idx_parts(a)
+            lb2, ib = idx_parts(b)
+            if rng is not None and la is not None and lb2 is not None and ia == ib and ia[0] == 'payload' and ia[2] == 'Some' and is_call(strip(ia[1]), 'next'):
+                from r_panic import is_len_of
+                end_len = is_len_of(expand(vb, rng.get('end')))
+                norm_ = lambda z: (strip(z[2][0]) if (z is not None and z[0] == 'call' and z[2] and re.search(r'(::deref|::as_slice)$', z[1])) else z)
+                a_base = bool(find_calls(expand(vb, la), 'region_name_and_vftable'))
+                b_base = bool(find_calls(expand(vb, lb2), 'region_name_and_vftable'))
+                base_list = la if a_base else lb2
+                whole = strip(rng.get('start', ('x',)))[:2] == ('int', 0) and end_len is not None and norm_(norm_(strip(end_len))) == norm_(norm_(base_list))
+                okn = bool(a_base != b_base and whole)
+                det += ' (indexed over 0..len(base): %s)' % okn
     # both tests are made against the table of the first base itself: the value the lookup of the first base returned, projected,
     # with nothing substituted for it (the table of "the class that stores the pointer" is a different, shorter table)
     srcs_bad = []
